@@ -8,7 +8,8 @@ import json
 PROP = 'C13'
 LEVEL = 'exploration'
 RULE = ('random hierarchies (chains to depth 4, diamonds, classes skipping the declaration) x histories interleaving '
-        'namespace reads on every class/instance (they populate caches), class-level sets at every level, add_parameter at '
+        'namespace reads on every class/instance (they populate caches), class-level sets at every level (also ones that fail: '
+        'value rejected by validation, class-level watcher raising), add_parameter at '
         'every level (new and overriding names), instance creation, instance sets, class-level watch+set probes. After each '
         'step, for every class and instance and every name whose static lookup finds a Parameter: membership in .param, '
         'identity of .param[name] with the governing Parameter (classes), .default vs the class attribute, .param.values(), '
@@ -22,7 +23,8 @@ ASSUMPTIONS = [
     'values are non-dynamic unique ints/strings (the statement excludes dynamic values)',
     'Python attribute resolution (inspect.getattr_static along the MRO, getattr) is the reference',
 ]
-REQUIRED = {'agreement_checks': 20000, 'class_sets': 500, 'add_parameters': 300, 'watch_probes': 200, 'parameter_object_assignments': 80}
+REQUIRED = {'agreement_checks': 20000, 'class_sets': 500, 'add_parameters': 300, 'watch_probes': 200, 'parameter_object_assignments': 80, 'class_sets_rejected': 80,
+            'class_sets_watcher_raises': 20}
 
 _st = {}
 _tok = [1000]
@@ -58,6 +60,8 @@ def run_case(idx, rng, P, rep):
         kind = kind or rng.choice(['Number', 'String', 'Parameter', 'Integer'])
         if kind == 'String':
             return param.String(default=f's{tok()}' if default is None else default), kind
+        if kind in ('Number', 'Integer'):
+            return getattr(param, kind)(default=tok() if default is None else default, bounds=(0, None)), kind
         return getattr(param, kind)(default=tok() if default is None else default), kind
 
     kinds_of = {}      # name -> kind of the most recent declaration (values follow it)
@@ -193,6 +197,53 @@ def run_case(idx, rng, P, rep):
             setattr(K, n, v)
             if getattr(K, n) != v:
                 viol('class/set-lost', f'{K.__name__}.{n} = {v!r} but getattr gives {getattr(K, n)!r}')
+        elif c < 0.53:
+            # a class-level assignment that fails: the value is rejected by validation, or a class-level watcher raises
+            gov = governing(K, Parameter)
+            names = [n for n in gov if n != 'name']
+            if not names:
+                continue
+            n = rng.choice(names)
+            g = gov[n]
+            before = getattr(K, n)
+            if any(s.__name__ in reads_before for s in classes if issubclass(s, K)):
+                nontrivial[0] = True
+            if isinstance(g, param.String) or isinstance(g, param.Number):
+                bad = tok() if isinstance(g, param.String) else -tok()
+                kinds.append('class_set_rejected')
+                rep.count('class_sets_rejected')
+                trace.append(('class_set_rejected', K.__name__, n, bad, 'declares' if n in vars(K) else 'inherits'))
+                try:
+                    setattr(K, n, bad)
+                except ValueError:
+                    pass
+                else:
+                    viol('class/invalid-value-accepted', f'{K.__name__}.{n} = {bad!r} was accepted by a {type(g).__name__}')
+                if getattr(K, n) != before:
+                    viol('class/rejected-set-changed-value', f'{K.__name__}.{n} = {bad!r} was rejected but getattr gives {getattr(K, n)!r}, before {before!r}')
+            else:
+                v = value_for(n, K)
+                kinds.append('class_set_watcher_raises')
+                rep.count('class_sets_watcher_raises')
+                trace.append(('class_set_watcher_raises', K.__name__, n, v, 'declares' if n in vars(K) else 'inherits'))
+
+                class Boom(Exception):
+                    pass
+
+                def boom(*ev):
+                    raise Boom()
+                w = K.param.watch(boom, n)
+                try:
+                    setattr(K, n, v)
+                except Boom:
+                    pass
+                finally:
+                    try:
+                        K.param.unwatch(w)
+                    except Exception:   # noqa: BLE001
+                        pass
+                if getattr(K, n) != v:
+                    viol('class/set-lost', f'{K.__name__}.{n} = {v!r} (a watcher raised) but getattr gives {getattr(K, n)!r}')
         elif c < 0.6:
             n = rng.choice(NAMES + ['w'])
             kind = kinds_of.get(n)
